@@ -1,0 +1,126 @@
+//go:build verif
+
+package kgo
+
+import (
+	"sync"
+	"sync/atomic"
+
+	"github.com/twmb/franz-go/pkg/kgo/internal/xsync"
+)
+
+// This file is only built with -tags verif. It gives the external
+// verification harness (a) a delay-injection point function and (b) thin
+// exported wrappers around unexported building blocks so that runtime
+// monitors can drive them directly. Nothing here changes client behavior.
+
+var verifPointFn atomic.Pointer[func(string)]
+
+// VerifSetPointFn installs fn to be called at every verifPoint site. A nil fn
+// uninstalls.
+func VerifSetPointFn(fn func(name string)) {
+	if fn == nil {
+		verifPointFn.Store(nil)
+		return
+	}
+	verifPointFn.Store(&fn)
+}
+
+func verifPoint(name string) {
+	if fn := verifPointFn.Load(); fn != nil {
+		(*fn)(name)
+	}
+}
+
+// VerifMutex and VerifRWMutex are the mutex types the client uses: sync types
+// in normal builds, channel-based ones under the synctests build tag.
+type (
+	VerifMutex   = xsync.Mutex
+	VerifRWMutex = xsync.RWMutex
+)
+
+// VerifRing wraps the internal ring.
+type VerifRing[T any] struct{ r ring[T] }
+
+func (v *VerifRing[T]) InitMaxLen(n int)                 { v.r.initMaxLen(n) }
+func (v *VerifRing[T]) Push(e T) (first, dead bool)      { return v.r.push(e) }
+func (v *VerifRing[T]) PushForce(e T) (first, dead bool) { return v.r.pushForce(e) }
+func (v *VerifRing[T]) DropPeek() (next T, more, dead bool) {
+	return v.r.dropPeek()
+}
+func (v *VerifRing[T]) Die()        { v.r.die() }
+func (v *VerifRing[T]) Empty() bool { return v.r.empty() }
+
+// VerifWorkLoop wraps the internal workLoop latch.
+type VerifWorkLoop struct{ l workLoop }
+
+func (v *VerifWorkLoop) MaybeBegin() bool            { return v.l.maybeBegin() }
+func (v *VerifWorkLoop) MaybeFinish(again bool) bool { return v.l.maybeFinish(again) }
+func (v *VerifWorkLoop) HardFinish()                 { v.l.hardFinish() }
+
+// VerifGate exposes the poll/rebalance gate of a bare consumer that has
+// BlockRebalanceOnPoll set.
+type VerifGate struct {
+	cl Client
+	c  *consumer
+}
+
+func NewVerifGate() *VerifGate {
+	g := new(VerifGate)
+	g.cl.cfg.blockRebalanceOnPoll = true
+	g.c = &g.cl.consumer
+	g.c.cl = &g.cl
+	g.c.pollWaitC = sync.NewCond(&g.c.pollWaitMu)
+	return g
+}
+
+func (g *VerifGate) WaitAndAddPoller()    { g.c.waitAndAddPoller() }
+func (g *VerifGate) UnaddPoller()         { g.c.unaddPoller() }
+func (g *VerifGate) AllowRebalance()      { g.c.allowRebalance() }
+func (g *VerifGate) WaitAndAddRebalance() { g.c.waitAndAddRebalance() }
+func (g *VerifGate) UnaddRebalance()      { g.c.unaddRebalance() }
+
+// VerifIncrementSequence exposes the producer sequence number arithmetic.
+func VerifIncrementSequence(sequence, increment int32) int32 {
+	return incrementSequence(sequence, increment)
+}
+
+// VerifAckEntry is one user acknowledgement (offset + final status) and
+// VerifAckRange one wire range, for VerifBuildAckRanges.
+type (
+	VerifAckEntry struct {
+		Offset int64
+		Status int8
+	}
+	VerifAckRange struct {
+		First, Last int64
+		Type        int8
+	}
+)
+
+// VerifBuildAckRanges runs the share-ack range builder over user entries and
+// internal gap ranges that all belong to one source and session epoch.
+func VerifBuildAckRanges(entries []VerifAckEntry, gaps []VerifAckRange) (out []VerifAckRange, hasRenew bool) {
+	slab := new(shareAckSlab)
+	es := make([]*shareAckState, len(entries))
+	for i, e := range entries {
+		st := &shareAckState{offset: e.Offset, slab: slab}
+		st.status.Store(int32(e.Status))
+		es[i] = st
+	}
+	gs := make([]shareAckRange, len(gaps))
+	for i, g := range gaps {
+		gs[i] = shareAckRange{firstOffset: g.First, lastOffset: g.Last, ackType: g.Type}
+	}
+	rs, hasRenew := buildAckRanges(es, gs)
+	for _, r := range rs {
+		out = append(out, VerifAckRange{r.firstOffset, r.lastOffset, r.ackType})
+	}
+	return out, hasRenew
+}
+
+// VerifSetPartitionRacks sets the partition leader racks a balancer sees, as
+// the group leader would after a metadata load.
+func (b *ConsumerBalancer) VerifSetPartitionRacks(racks map[string][]string) {
+	b.partitionRacks = racks
+}
